@@ -860,3 +860,14 @@ Theorem C19_slist_max_level_agrees_generated : forall cnt levels : nat,
   = Ok (Z.of_nat (sl_max_level cnt levels)).
 Proof. exact sl_max_level_agrees_generated. Qed.
 Print Assumptions C19_slist_max_level_agrees_generated.
+
+From CAres.Dsa Require Import Buf_gen_agree2.
+Theorem C19_buf_fetch_be32_agrees_generated : forall b old,
+  buf_inv b -> buf_bytes_ok (buf_remaining b) ->
+  exists st b' v v',
+    buf_fetch_be32 b = Ok (st, b', v) /\
+    c_ares_buf_fetch_be32 (b2z (cb_hasdata b)) (cb_dlen b) (cb_off b) (buf_memf b) old
+      = Ok (st, cb_off b', v') /\
+    (st = ARES_SUCCESS -> v' = v) /\ (st <> ARES_SUCCESS -> v' = old /\ b' = b).
+Proof. exact buf_fetch_be32_agrees_generated. Qed.
+Print Assumptions C19_buf_fetch_be32_agrees_generated.
